@@ -766,6 +766,48 @@ theorem linkname_resolves (all : List Link) (decls : List Sym) (ref impl : Sym) 
     rw [List.mem_filter] at hdm
     rw [huniq d hdm.1 (by simpa using hd)]
 
+/-! ### errors of all files of a package -/
+
+theorem parsePackage_foldl (fs : List FileResult) : ∀ (acc : FileResult),
+    fs.foldl (fun acc f => (⟨acc.links ++ f.links, acc.errs ++ f.errs⟩ : FileResult)) acc
+      = ⟨acc.links ++ fs.flatMap (·.links), acc.errs ++ fs.flatMap (·.errs)⟩ := by
+  induction fs with
+  | nil => intro acc; simp
+  | cons f fs ih => intro acc; simp only [List.foldl_cons, ih, List.flatMap_cons, List.append_assoc]
+
+/-- the accumulated error list is the concatenation of the per-file error lists, in processing order -/
+theorem parsePackage_errs (fs : List FileResult) : (parsePackage fs).errs = fs.flatMap (·.errs) := by
+  unfold parsePackage; rw [parsePackage_foldl]; simp
+
+/-- **linkname_errors_any_file** — the package is rejected iff SOME file has an unsupported directive. -/
+theorem linkname_errors_any_file (fs : List FileResult) :
+    packageRejected fs = true ↔ ∃ f ∈ fs, f.errs ≠ [] := by
+  unfold packageRejected
+  rw [parsePackage_errs]
+  simp only [Bool.not_eq_true', List.isEmpty_eq_false_iff, ne_eq, List.flatMap_eq_nil_iff]
+  constructor
+  · intro h
+    apply Classical.byContradiction
+    intro hn
+    exact h (fun f hf => Classical.byContradiction fun hne => hn ⟨f, hf, hne⟩)
+  · rintro ⟨f, hf, hne⟩ hall; exact hne (hall f hf)
+
+/-- **linkname_errors_position_independent** — whether the package is rejected does not depend on the order in which
+    its files are processed (on the position of the offending file in the file order): for every permutation. -/
+theorem linkname_errors_position_independent (fs₁ fs₂ : List FileResult) (h : fs₁.Perm fs₂) :
+    packageRejected fs₁ = packageRejected fs₂ := by
+  rw [Bool.eq_iff_iff, linkname_errors_any_file, linkname_errors_any_file]
+  exact ⟨fun ⟨f, hf, hne⟩ => ⟨f, h.subset hf, hne⟩, fun ⟨f, hf, hne⟩ => ⟨f, h.symm.subset hf, hne⟩⟩
+
+/-- **linkname_errors_overwriting_counterexample** — the fold that overwrites the error per file (not the code) accepts
+    a package whose offending file is not processed last, and its verdict depends on the file order. -/
+theorem linkname_errors_overwriting_counterexample :
+    let bad : FileResult := ⟨[], [.errNotFunc]⟩
+    let clean : FileResult := ⟨[], []⟩
+    (parsePackageOverwriting [bad, clean]).errs = [] ∧ (parsePackageOverwriting [clean, bad]).errs ≠ [] ∧
+    packageRejected [bad, clean] = true ∧ packageRejected [clean, bad] = true := by
+  decide
+
 /-! ### `GoLinknameSet.Add` -/
 
 /-- **linkset_add_no_conflict** — when no reference is named twice, `Add` records every directive in both maps and
